@@ -36,9 +36,9 @@ PROPS = {
         'assumptions': ['token tables are keyed by the token itself (CRC-64 collisions of Token.Hash are F18/C03, not modelled here)',
                         'one message is handled at a time per endpoint (the per-token semaphore of messageGuard is not modelled; interleavings are at message granularity)',
                         'memfile/bytes.Reader Seek/Read/Truncate behave as list operations'],
-        'level_text': 'see notes/C04.md',
-        'level_note': 'see notes/C04.md',
-        'explanation': 'see notes/C04.md',
+        'level_text': 'Coq theorems (Properties/C04.v) over a Gallina transcription of net/blockwise/blockwise.go (createSendingMessage, startSendingMessage, processReceivedMessage incl. ETag restart and Observe, continueSendingMessage, Handle, Do, WriteMessage): every served block is the coherent slice of the body with M <=> bytes remain (all bodies/SZX/NUM/max message sizes); for every history of coherent messages in any order with any repetition and any token mix every reassembly buffer is a prefix of the representation and everything handed to the application is the whole representation; state is removed on delivery and a non-first block without state delivers nothing; handling token t leaves every other token untouched; fault-free download lock-step completes within remaining/buffer + 1 round trips. The model is tied to the code by replaying explicit event scripts (deliver/dup/drop/reorder/replay/bump/timeout/expire, 1-3 tokens) on two real BlockWise instances joined by a marshalling relay and comparing every event (wire message, deliveries, error callbacks, returns, cache sizes); the property predicate (Spec.v) is evaluated on the observed traces.',
+        'level_note': 'Safety (exact body, once, isolation) proved for all sizes/SZX/fault orders; progress proved only for the download lock-step core (uploads, the two-endpoint loop and time-outs are covered by correspondence runs; O1/O2 of DESIGN.md Appendix E are situations in which the implementation makes no progress but delivers nothing partial). Token tables are modelled as keyed by the token (CRC-64 collisions are F18/C03). Per-token semaphores and goroutine-level interleaving inside one Handle are not modelled (message-granularity interleaving only).',
+        'explanation': 'Theorems: C04_serve_coherent, C04_prefix_invariant_and_complete_exact (whole histories), C04_complete_exact (one step), C04_once, C04_isolated, C04_progress_partial. Correspondence: fault-free grid (7 exchange styles x sizes {0,1,s-1,s,s+1,2s-1,2s,2s+1,3s+5} x SZX pairs incl. BERT with 1152/2048/4096), all single faults (10 kinds x every position) on 14 bases, all pairs of network faults on a both-directions base, replay of every sent message after completion, random 1-3 token interleavings with faults.',
     },
 }
 
